@@ -868,6 +868,8 @@ fn alphabet(env: &Env) -> Vec<String> {
     // patterns and anchors
     for s in [
         "ads", "|ads", "ads|", "||ads.net", "||ads.net|", "||ads.net^", "||ads.net/ads", "||ads.net/ads|", "||ads.net^ads", "||ads.net*ads", "||a*.net^", "||*ads",
+        // a wildcard inside the host part followed by literal text only
+        "||a*.net/ads", "||ad*.net", "||a*s.net/ads|", "||a*.net", "||a*.ads.net/ads",
         "||www.ads.net^", "/ads.", "a.b/ads?x=1", "ads^", "^ads^", "ads*js", "a+b", "a(b)", "a[b]", "a{b}", "a\\b", "a|b", "^$image", "|http://", "|https://", "|ws://",
         "|http*://", "|http://a.b/", "|https://ads.net/ads|", "/a+\\/b/", "/ad[sx]/$match-case", "ads$match-case", "ad\u{e9}", "||caf\u{e9}.fr^", "||caf\u{e9}.fr/ads",
     ] {
